@@ -1096,3 +1096,36 @@ def special_C11(seed, tier, model, deadline):
         progs += 1
         nops += len(ops)
     return {'failures': fails, 'mismatches': mism, 'coverage': {'settings_programs': progs, 'settings_ops': nops}}
+
+
+def special_C01(seed, tier, model, deadline):
+    """conversations (harness/conversation.py): a client and a server of the library exchanging only what the application
+    may send in the state its endpoint is in, delivered k frames or n bytes at a time in either direction; every
+    delivery and every event is judged by oracle_C01, every op compared with the model"""
+    import random
+    import time
+    import checklib as L
+    from conversation import conversation
+    from oracles import ORACLES
+    oracle = ORACLES['C01']
+    n = {'quick': 250, 'thorough': 6000}.get(tier, 250)
+    fails, mism, progs, nops = [], [], 0, 0
+    kinds = {}
+    for k in range(n):
+        if time.time() > deadline:
+            break
+        rng = random.Random((seed * 99991 + k) & 0xFFFFFFFF)
+        r = conversation(rng, model, rng.choice([40, 80, 150]), kinds)
+        progs += 1
+        nops += len(r.log)
+        if model is not None:
+            for idx, (op, ol, ml, obs) in enumerate(r.log):
+                if ml is not None and obs is not None and not r.unmodelled_at(idx) and L.project('C01', ol) != L.project('C01', ml):
+                    mism.append({'seed': seed, 'k': 'conv-%d' % k, 'idx': idx, 'ops': r.ops[:idx + 1]})
+                    break
+        fs = oracle(r)
+        if fs:
+            f = min(fs, key=lambda x: x['idx'])
+            fails.append({'seed': seed, 'k': 'conv-%d' % k, 'failure': f, 'ops': r.ops[:f['idx'] + 1]})
+    return {'failures': fails, 'mismatches': mism,
+            'coverage': {'conversation_programs': progs, 'conversation_ops': nops, 'conversation_calls': kinds}}
